@@ -163,12 +163,12 @@ func minimise(w World, p *Plan, v *Violation, budgetS float64) (*Plan, *Violatio
 				break
 			}
 		}
-		for best.Ops[i].N == "Fill" && best.Ops[i].A[0] > 1 {
+		for (best.Ops[i].N == "Fill" || best.Ops[i].N == "Scale") && best.Ops[i].A[0] > 1 {
 			c := best.Clone()
-			c.Ops[i].A = []int{best.Ops[i].A[0] / 2, best.Ops[i].A[1]}
+			c.Ops[i].A = append([]int{best.Ops[i].A[0] / 2}, best.Ops[i].A[1:]...)
 			if !try(c) {
 				c = best.Clone()
-				c.Ops[i].A = []int{best.Ops[i].A[0] - 1, best.Ops[i].A[1]}
+				c.Ops[i].A = append([]int{best.Ops[i].A[0] - 1}, best.Ops[i].A[1:]...)
 				if best.Ops[i].A[0] > 64 || !try(c) {
 					break
 				}
